@@ -168,6 +168,32 @@ def range_family():
     return progs
 
 
+def bigscan_family(n=700):
+    """Scans over more entries than the scan keeps one epoch pin for (256) and than it preallocates for (1024 in
+    the thorough variant): limits just below / at / above those numbers, windows that start and end inside them,
+    expired and never-created keys in between; alone (exact result) and against a writer."""
+    keys = ["k%04d" % i for i in range(n)]
+    init = []
+    for i in range(1, n + 1):
+        if i % 37 == 0:
+            continue
+        op = {"op": "insert", "k": i, "v": B1 if i % 2 else B2, "auto": False, "tsv": NOW - 10 * E9}
+        if i % 11 == 0:
+            op.update({"ttlv": 5, "wttl": True})          # expired at NOW
+        init.append(op)
+    lims = [255, 256, 257, n, 1] + ([1023, 1024, 1025] if n > 1100 else [])
+    scans = [{"op": "range", "lo": 1, "hi": n, "lim": l} for l in lims] + \
+            [{"op": "range", "lo": 200, "hi": 520, "lim": 400}, {"op": "range", "lo": 250, "hi": n + 1, "lim": 300}]
+    cfg = {"pers": False, "ttl": True, "lim": -1}
+    progs = [("bigscan_%d" % n, {"cfg": cfg, "keys": keys, "init": init, "threads": [scans]})]
+    writer = [{"op": "insert", "k": 37 * 8, "v": B3}, {"op": "delete", "k": 300}, {"op": "insert", "k": 301, "v": B3},
+              {"op": "update_ttl", "k": 302, "ttlv": 50}, {"op": "delete", "k": 37 * 8}]
+    progs.append(("bigscan_w_%d" % n, {"cfg": cfg, "keys": keys, "init": init,
+                                       "points": ["between_ops", "upd_post", "del_post", "ins_enq", "ttl_post"],
+                                       "threads": [[scans[0], scans[3]], writer]}))
+    return progs
+
+
 def mem_family():
     # limits that admit only some of the racing creators / growers
     progs = []
